@@ -100,7 +100,8 @@ package eval
 //@     invariant forall x types.EntityUID :: has(known.m, x) == (has(old(known).m, x) || ($done[x] && !leaf(env, x) && x != entity))
 //@     invariant len(todo) >= len(old(todo)) && (forall j int :: (0 <= j && j < len(old(todo))) ==> todo[j] == old(todo)[j])
 //@     invariant forall j int :: (len(old(todo)) <= j && j < len(todo)) ==> $done[todo[j]]
-//@     invariant forall x types.EntityUID :: (has(known.m, x) && !has(old(known).m, x)) ==> inTodo(todo, x)
+//@     invariant forall x types.EntityUID :: { has(known.m, x) } (has(known.m, x) && !has(old(known).m, x)) ==> inTodo(todo, x)
+//@   assert after "known.Add(k)" witness: len(todo) > 0 && todo[len(todo)-1] == k && inTodo(todo, k)
 //@   ghost before "return false" S: forall x types.EntityUID :: S[x] == (seen(known, entity, x) || (x != parent && leaf(env, x)))
 //@   assert before "return false" closed: forall x types.EntityUID, y types.EntityUID :: { edge(env, x, y) } (S[x] && edge(env, x, y)) ==> S[y]
 //@   assert before "return false" unreachable: S[entity] && !S[parent] && !reach(env, entity, parent)
@@ -126,7 +127,8 @@ package eval
 //@     invariant forall x types.EntityUID :: has(known.m, x) == (has(old(known).m, x) || ($done[x] && !leaf(env, x) && x != entity))
 //@     invariant len(todo) >= len(old(todo)) && (forall j int :: (0 <= j && j < len(old(todo))) ==> todo[j] == old(todo)[j])
 //@     invariant forall j int :: (len(old(todo)) <= j && j < len(todo)) ==> $done[todo[j]]
-//@     invariant forall x types.EntityUID :: (has(known.m, x) && !has(old(known).m, x)) ==> inTodo(todo, x)
+//@     invariant forall x types.EntityUID :: { has(known.m, x) } (has(known.m, x) && !has(old(known).m, x)) ==> inTodo(todo, x)
+//@   assert after "known.Add(k)" witness: len(todo) > 0 && todo[len(todo)-1] == k && inTodo(todo, k)
 //@   ghost before "return false" S: forall x types.EntityUID :: S[x] == (seen(known, entity, x) || (!inTarget(parents, x) && leaf(env, x)))
 //@   assert before "return false" closed: forall x types.EntityUID, y types.EntityUID :: { edge(env, x, y) } (S[x] && edge(env, x, y)) ==> S[y]
 //@   assert before "return false" unreachable: S[entity] && (forall t types.EntityUID :: { inTarget(parents, t) } inTarget(parents, t) ==> (!S[t] && !reach(env, entity, t)))
